@@ -614,8 +614,8 @@ class Graph:
 
     @property
     def has_interrupts(self) -> bool:
-        """True if any node is an interrupt node."""
-        return any(node.is_interrupt for node in self._nodes.values())
+        """True if any node, at any nesting depth, is an interrupt node."""
+        return any(node.is_interrupt or (node.nested_graph is not None and node.nested_graph.has_interrupts) for node in self._nodes.values())
 
     @property
     def interrupt_nodes(self) -> list:
